@@ -304,3 +304,10 @@ func mustAtoi(s string, def int) int {
 }
 
 func exitNow(code int) { os.Exit(code) }
+
+func imax(a, b int) int {
+	if a > b {
+		return a
+	}
+	return b
+}
